@@ -16,8 +16,10 @@ import hashlib
 import json
 import multiprocessing
 import os
+import select
 import shutil
 import subprocess
+import time
 
 import c02_fs as F
 import vlib
@@ -86,24 +88,67 @@ def visible(ents):
 
 
 # ---------------------------------------------------------------- the model co-process
-class Model:
-    def __init__(self, exe):
-        self.p = subprocess.Popen([exe], stdin=subprocess.PIPE, stdout=subprocess.PIPE, stderr=subprocess.PIPE)
+class ModelTimeout(Exception):
+    """the extracted model did not answer a request within its wall-clock limit"""
 
-    def cmd(self, line):
-        self.p.stdin.write((line + "\n").encode())
-        self.p.stdin.flush()
-        out = self.p.stdout.readline().decode()
-        if not out:
-            raise RuntimeError("model driver died on %r: %s" % (line[:200], self.p.stderr.read().decode()[-500:]))
-        return out.rstrip("\n")
+
+class Model:
+    """the extracted model as a co-process.  EVERY request has a wall-clock deadline: on expiry the
+    driver is killed and restarted (its state is lost) and ModelTimeout is raised - the history ends
+    there with a correspondence problem and a last look at the real directory (History.run)"""
+    HEAVY = ("GO", "GOF", "Q", "QQ", "FQ", "LOAD", "PEND", "ACC", "FCALLS")
+    LIFE = 6 * 3600      # no driver outlives this, whatever happens to its parent
+
+    def __init__(self, exe):
+        self.exe = exe
+        self.start()
+
+    def start(self):
+        self.p = subprocess.Popen(["timeout", "-k", "2", str(self.LIFE), self.exe], stdin=subprocess.PIPE, stdout=subprocess.PIPE, stderr=subprocess.DEVNULL,
+                                  start_new_session=True)
+        self.buf = b""
+
+    def cmd(self, line, limit=None):
+        if limit is None:
+            limit = 45.0 if line.split(" ", 1)[0] in self.HEAVY else 15.0
+        end = time.monotonic() + limit
+        try:
+            self.p.stdin.write((line + "\n").encode())
+            self.p.stdin.flush()
+        except (BrokenPipeError, OSError):
+            raise RuntimeError("model driver died before %r" % line[:200])
+        fd = self.p.stdout.fileno()
+        while b"\n" not in self.buf:
+            left = end - time.monotonic()
+            ready = select.select([fd], [], [], max(0.0, left))[0] if left > 0 else []
+            if not ready:
+                self.kill()
+                self.start()
+                raise ModelTimeout(line[:300])
+            chunk = os.read(fd, 1 << 20)
+            if not chunk:
+                raise RuntimeError("model driver died on %r" % line[:200])
+            self.buf += chunk
+        out, _, self.buf = self.buf.partition(b"\n")
+        return out.decode()
+
+    def kill(self):
+        try:
+            os.killpg(self.p.pid, 9)       # `timeout` and the driver under it
+        except Exception:
+            pass
+        try:
+            self.p.kill()
+            self.p.wait(timeout=5)
+        except Exception:
+            pass
 
     def close(self):
         try:
             self.p.stdin.close()
             self.p.wait(timeout=10)
         except Exception:
-            self.p.kill()
+            self.kill()
 
 
 # ---------------------------------------------------------------- one real session
@@ -802,9 +847,32 @@ class History:
             self._run()
         except Problem:
             pass
+        except ModelTimeout as mt:
+            # the model could not decide: at least a correspondence problem; and the real store is still
+            # judged directly - what this history acknowledged must be readable after a reopen
+            self.problem("corr", "the model could not decide `%s` within the limit" % str(mt)[:120])
+            try:
+                self.direct_oracle()
+            except (Problem, ModelTimeout):
+                pass
         finally:
             self.model.close()
             shutil.rmtree(self.dir, ignore_errors=True)
+
+    def direct_oracle(self):
+        """without the model: the directory the last recorded session of the real store left must reopen
+        and read what that run acknowledged (python reference only)"""
+        top = getattr(self, "top", None)
+        if not top or top["so"] is None:
+            return
+        acked = list(top["acked0"])
+        for n, (kind, payload) in enumerate(top["items"], start=1):
+            if kind == "w" and top["so"].res.get(n) == "ok":
+                acked.append(list(payload))
+        pr = probe(self.exe, top["real"], self.opts)
+        self.stats["direct_oracle_after_model_timeout"] = self.stats.get("direct_oracle_after_model_timeout", 0) + 1
+        self.check_probe(pr, None, "after session %d exited (model timed out; direct oracle)" % top["si"], acked, None,
+                         {"options": self.optname, "history": ops_to_json(self.ops), "session": top["si"]})
 
     def _run(self):
         sessions = split_sessions(self.ops)
@@ -826,6 +894,8 @@ class History:
         fault_plan = self.fault_plan if self.probing and fault is None else []
         script, items = session_script(sess)
         start_fs = self.fs.clone()
+        if si < 1000:
+            self.top = {"real": real, "si": si, "acked0": list(self.acked), "items": items, "so": None}
         trace = os.path.join(self.dir, "s%d.trace" % si)
         if fault is None:
             so = SessionOut(run_session(self.exe, real, self.opts, script, trace=trace))
@@ -837,6 +907,8 @@ class History:
             so = SessionOut(run_session(self.exe, real, self.opts, script, trace=trace,
                                         inject_all=(fault[1].sys, "error=" + fault[2], fault[1].tk), timeout=90))
         self.stats["sessions"] += 1
+        if si < 1000:
+            self.top["so"] = so
         evs, _ = F.parse_trace(trace, root_abs, "db")
         os.unlink(trace)
         if fault is not None:
@@ -1496,6 +1568,14 @@ class Summary:
         self.outside_notes = getattr(h, "outside_notes", [])
 
 
+class Stuck:
+    """stands for a history whose worker did not deliver: a correspondence problem, never silence"""
+
+    def __init__(self, what):
+        self.problems, self.known, self.outside_notes = [{"kind": "corr", "what": what}], [], []
+        self.stats = {"flushes": 0, "probes": 0}
+
+
 def _job(args):
     exe, mx, optname, opts, ops, tag, tier, seed, forced = args
     h = History(exe, mx, optname, opts, ops, tag, tier, vlib.Rng(seed), forced)
@@ -1603,8 +1683,25 @@ def run(chk):
         if ops is not None:
             jobs.append((exe, mx, "defaults", [], ops, "big%d" % j, chk.tier, js, None))
             names.append(("biglog_r%d_%d" % (r, j), "defaults", ops))
-    with multiprocessing.Pool(min(len(jobs), max(2, vlib.NCPU - 2))) as pool:
-        results = pool.map(_job, jobs, chunksize=1)
+    # every history has a deadline and so has the whole run: a stuck worker cannot hold it
+    t0 = time.monotonic()
+    total = 540.0 if chk.tier == "quick" else 5 * 3600.0
+    per = 300.0 if chk.tier == "quick" else 3600.0
+    pool = multiprocessing.Pool(min(len(jobs), max(2, vlib.NCPU - 2)))
+    try:
+        handles = [pool.apply_async(_job, (j,)) for j in jobs]
+        results = []
+        for j, hd in zip(jobs, handles):
+            left = max(1.0, min(per + (time.monotonic() - t0), total) - (time.monotonic() - t0))
+            try:
+                results.append(hd.get(timeout=left))
+            except multiprocessing.TimeoutError:
+                results.append(Stuck("history %s did not finish within the limit (%d s into the run)" % (j[5], time.monotonic() - t0)))
+            except Exception as ex:
+                results.append(Stuck("history %s: the worker failed: %r" % (j[5], ex)))
+    finally:
+        pool.terminate()
+        pool.join()
     torn = torn_log_probe(exe, chk.work)
     smallbuf = small_buffer_probe(exe, chk.work)
 
@@ -1631,6 +1728,10 @@ def run(chk):
                 r.problems.append({"kind": "prop", "what": "unlisted known-class event " + cls + ": " + what})
         props = [p for p in r.problems if p["kind"] == "prop"]
         corrs = [p for p in r.problems if p["kind"] == "corr"]
+        for q in corrs:
+            if ("could not decide" in q["what"] or "did not finish" in q["what"] or "worker failed" in q["what"]) and len(chk.notes) < 8:
+                chk.notes.append("deadline: %s (%s, %d ops)" % (q["what"][:200], name, len(ops)))
+                print("   NOTE deadline: %s (%s, %d ops)" % (q["what"][:200], name, len(ops)))
         if props:
             if reported < 3:
                 p = props[0]
